@@ -73,12 +73,37 @@ theorem lookupF_mem {fs : List (String × PVal)} {k : String} {v : PVal} (h : lo
 
 theorem allCl_setF {fs : List (String × PVal)} {k : String} {v : PVal} (h : ∀ p ∈ fs, p.2.AllCl P) (hv : v.AllCl P) :
     ∀ p ∈ setF fs k v, p.2.AllCl P := by
-  intro p hp
-  unfold setF at hp
-  obtain ⟨q, hq, rfl⟩ := List.mem_map.1 hp
-  by_cases hk : (q.1 == k) = true
-  · simp only [hk, if_true]; exact hv
-  · simp only [hk, Bool.false_eq_true, if_false]; exact h q hq
+  induction fs with
+  | nil => intro p hp; simp [setF] at hp
+  | cons x rest ih =>
+    obtain ⟨k', x⟩ := x
+    intro p hp
+    simp only [setF] at hp
+    by_cases hk : (k' == k) = true
+    · simp only [hk, if_true] at hp
+      rcases List.mem_cons.1 hp with rfl | hp
+      · exact hv
+      · exact h p (List.mem_cons_of_mem _ hp)
+    · simp only [hk, Bool.false_eq_true, if_false] at hp
+      rcases List.mem_cons.1 hp with rfl | hp
+      · exact h _ List.mem_cons_self
+      · exact ih (fun q hq => h q (List.mem_cons_of_mem _ hq)) p hp
+
+/-- assigning the value that is already there changes nothing -/
+theorem setF_lookupF {fs : List (String × PVal)} {k : String} {v : PVal} (h : lookupF fs k = some v) : setF fs k v = fs := by
+  induction fs with
+  | nil => simp [lookupF] at h
+  | cons x rest ih =>
+    obtain ⟨k', x⟩ := x
+    simp only [setF]
+    by_cases hk : (k' == k) = true
+    · simp only [hk, if_true]
+      simp only [lookupF, List.find?_cons, hk, Option.map_some, Option.some.injEq] at h
+      rw [h]
+    · simp only [hk, Bool.false_eq_true, if_false]
+      have hk' : (k' == k) = false := by simpa using hk
+      simp only [lookupF, List.find?_cons, hk'] at h
+      rw [ih h]
 
 theorem allCl_getAt : ∀ (a : Path) {v w : PVal}, v.AllCl P → v.getAt a = some w → w.AllCl P
   | [], v, w, h, hg => by
